@@ -388,7 +388,7 @@ def with_eventless_rows(r, model):
 def engine_request(model, files_lines, itf, env, usertags):
     env = dict(env)
     enums = env.pop("enums", "")
-    return dict(cmd="engine", smname=model["name"], ns=model["ns"], author="auth", group="grp", brief="brief", dclspc=model.get("dclspc", ""),
+    return dict(cmd="engine", smname=model["name"], ns=model["ns"], author=model.get("author", "auth"), group=model.get("group", "grp"), brief=model.get("brief", "brief"), dclspc=model.get("dclspc", ""),
                 pyif="Transition Table", enums=enums,
                 tt=tt_rows(model["tt"]),
                 structNames=list(itf.StructNames()), protoNames=list(itf.ProtocolStructNames()), msgNames=list(itf.MessageNames()),
@@ -397,7 +397,7 @@ def engine_request(model, files_lines, itf, env, usertags):
 
 
 def spec_request(model, tpl, itf, usertags, enums=""):
-    return dict(cmd="spec", smname=model["name"], ns=model["ns"], author="auth", group="grp", brief="brief", dclspc=model.get("dclspc", ""),
+    return dict(cmd="spec", smname=model["name"], ns=model["ns"], author=model.get("author", "auth"), group=model.get("group", "grp"), brief=model.get("brief", "brief"), dclspc=model.get("dclspc", ""),
                 pyif="Transition Table", enums=enums,
                 tt=tt_rows(model["tt"]),
                 structNames=list(itf.StructNames()), protoNames=list(itf.ProtocolStructNames()), msgNames=list(itf.MessageNames()),
